@@ -225,7 +225,7 @@ def run(rep, tier, seed, replay=None, proof_ok=True):
     jobs = []
     for k in range(n):
         r = random.Random('c13/%d/%d' % (seed, k))
-        prof = G.Profile(p_template=0.8, max_tvalues=4, p_scoped=0.2 if k % 4 == 0 else 0.02)
+        prof = G.Profile(p_template=0.8, max_tvalues=4, p_scoped=0.2 if k % 4 == 0 else 0.02, same_name_values=(k % 2 == 0))
         g = G.Gen(r, prof)
         m = g.module()
         variants = {'base': m, 'subset': subset(m, r), 'perm': permute(m, r)}
